@@ -76,6 +76,14 @@ func init() {
 			if bt.Tx.Fee.Mode == FeeExact {
 				w.Class("c06.admitted-exact")
 			}
+			if !nested && !(hasWrk && hasBcn) {
+				// the node's mempool keeps what it admitted and re-checks it after every commit
+				mp, _ := w.Notes["c06.mempool"].([]*BuiltTx)
+				if len(mp) < 24 {
+					bt.Snap["c06.fee-at-admission"] = w.ExpectedFees(bt.Ops)
+					w.Notes["c06.mempool"] = append(mp, bt)
+				}
+			}
 			exp := w.ExpectedFees(bt.Ops)
 			snap, _ := bt.Snap["c06"].(*c06Snap)
 			for d, want := range exp {
@@ -110,6 +118,36 @@ func init() {
 					}
 				}
 			}
+		},
+		AfterCommit: func(w *World) {
+			mp, _ := w.Notes["c06.mempool"].([]*BuiltTx)
+			var keep []*BuiltTx
+			for _, bt := range mp {
+				r, pan := w.C.ReCheckTx(bt.Bytes)
+				exp := w.ExpectedFees(bt.Ops)
+				then, _ := bt.Snap["c06.fee-at-admission"].(map[string]*big.Int)
+				changed := len(then) != len(exp)
+				for d, v := range exp {
+					if then[d] == nil || then[d].Cmp(v) != 0 {
+						changed = true
+					}
+				}
+				if pan != nil || r.Code != 0 {
+					if changed {
+						w.Class("c06.recheck-evicted-after-fee-change")
+					}
+					continue // evicted
+				}
+				keep = append(keep, bt)
+				w.Class("c06.recheck-kept")
+				for d, want := range exp {
+					if got := bt.Fee.AmountOf(d).BigInt(); got.Cmp(want) != 0 {
+						w.Fail("C06", "kept in the mempool by the re-check (CheckTx type Recheck, code 0) with %s%s offered in the fee denomination (full fee %s) while the operations now cost exactly %s%s", got, d, bt.Fee, want, d)
+						return
+					}
+				}
+			}
+			w.Notes["c06.mempool"] = keep
 		},
 	})
 }
